@@ -48,6 +48,7 @@ type flightSt struct {
 	resultOK bool
 	gensAt   int // len(gens[k]) when the flight began
 	gid      int64
+	reqOpen  bool // the request is at the server, the transfer has not ended (freq .. fbody)
 }
 
 type taskDone struct {
@@ -72,6 +73,7 @@ type sched struct {
 	gens     map[int][]any
 	ops      []string
 	orphaned map[int]bool // keys whose flight delivered an rc to nobody
+	atServer map[int]bool // a stalled request for the key is waiting at the server
 	broken   bool
 	quiet    bool // replaying a corpus script: same protocol, counted separately
 }
@@ -82,7 +84,7 @@ func newSched(r *hx.Run, layers []*layer) (*sched, error) {
 		return nil, err
 	}
 	s := &sched{r: r, root: root, keyIdx: map[string]int{}, flights: map[int]*flightSt{}, arrive: make(chan *park, 1024),
-		doneCh: make(chan taskDone, 1024), byGid: map[int64]*task{}, gens: map[int][]any{}, orphaned: map[int]bool{}}
+		doneCh: make(chan taskDone, 1024), byGid: map[int64]*task{}, gens: map[int][]any{}, orphaned: map[int]bool{}, atServer: map[int]bool{}}
 	s.srv = newServer(layers)
 	for _, l := range layers {
 		s.keyIdx[l.digest] = l.idx
@@ -156,6 +158,8 @@ func (s *sched) pump(what string, cond func() bool) bool {
 			s.place(p)
 		case d := <-s.doneCh:
 			d.t.finished, d.t.err = true, d.err
+		case k := <-s.srv.arrived:
+			s.atServer[k] = true
 		case <-timeout:
 			s.fail("", "no-progress waiting-for="+what)
 			s.broken = true
@@ -319,13 +323,21 @@ func (s *sched) fload(k int) {
 func (s *sched) fnet(k int, srvOK bool, mode int32) {
 	before := s.srv.hits[k].Load()
 	s.srv.mode[k].Store(mode)
+	if f := s.flights[k]; !s.quiet && f != nil && f.leader >= 0 && s.tasks[f.leader].st == "failed" {
+		s.r.Count("branch:request-under-a-cancelled-leader")
+	}
 	site := s.flightStep(k)
 	out := "neterr"
 	if site == "fetched" {
 		out = "fetched"
 	}
+	s.heldCheck(k, before)
+	s.emit(fmt.Sprintf("fnet %d %s", k, b01(srvOK)), k, out)
+}
+
+// heldCheck is the statement: no download of a layer somebody is holding.
+func (s *sched) heldCheck(k int, before int64) {
 	if s.srv.hits[k].Load() != before {
-		// the statement: no download of a layer somebody is holding
 		for _, t := range s.tasks {
 			if t.key == k && t.st == "holding" {
 				s.fail("", fmt.Sprintf("download-while-held key=%d holder=task%d", k, t.id))
@@ -333,7 +345,42 @@ func (s *sched) fnet(k int, srvOK bool, mode int32) {
 			}
 		}
 	}
-	s.emit(fmt.Sprintf("fnet %d %s", k, b01(srvOK)), k, out)
+}
+
+// freq: the request leaves and reaches a server that stalls (before the
+// headers or in the middle of the body) until fbody.
+func (s *sched) freq(k int, where int32) {
+	f := s.flights[k]
+	before := s.srv.hits[k].Load()
+	s.srv.armStall(k, where)
+	delete(s.atServer, k)
+	s.releaseFlight(f)
+	out := "requested"
+	s.pump("request-at-server", func() bool { return s.atServer[k] || f.at != nil })
+	if f.at != nil {
+		out = "neterr" // the leader's context was dead: nothing was sent
+		s.srv.openGate(k)
+	} else {
+		f.reqOpen = true
+	}
+	s.heldCheck(k, before)
+	if !s.quiet {
+		s.r.Count(fmt.Sprintf("branch:stall-point=%d", where))
+	}
+	s.emit(fmt.Sprintf("freq %d", k), k, out)
+}
+
+// fbody: the stalled transfer ends, with the right bytes or in failure.
+func (s *sched) fbody(k int, srvOK bool, mode int32) {
+	f := s.flights[k]
+	s.srv.mode[k].Store(mode)
+	s.srv.openGate(k)
+	f.reqOpen = false
+	out := "neterr"
+	if s.pump("transfer-ends", func() bool { return f.at != nil }) && f.at.site == "c10.flight.fetched" {
+		out = "fetched"
+	}
+	s.emit(fmt.Sprintf("fbody %d %s", k, b01(srvOK)), k, out)
 }
 
 func (s *sched) fstore(k int) {
@@ -388,6 +435,9 @@ func (s *sched) fend(k int) {
 			s.orphaned[k] = true
 		}
 	}
+	if !s.quiet {
+		s.r.Count(fmt.Sprintf("branch:flight-ends %s waiters=%s", res, bucket(len(ws))))
+	}
 	for _, t := range ws {
 		if s.broken {
 			break
@@ -430,6 +480,13 @@ func (s *sched) cancelTask(t *task) {
 			s.broken = true
 		}
 		t.st = "failed"
+		if f := s.flights[t.key]; f != nil && f.leader == t.id && f.reqOpen && !s.broken {
+			// the transfer runs under this context: it fails now, the flight goes on to its end
+			s.pump("cancelled-transfer-fails", func() bool { return f.at != nil })
+			if !s.quiet {
+				s.r.Count("branch:leader-cancelled-mid-transfer")
+			}
+		}
 	}
 	s.emit(fmt.Sprintf("cancel %d", t.id), t.key, out)
 }
@@ -443,6 +500,18 @@ func (s *sched) stepTask(t *task, what string) string {
 		return "finished"
 	}
 	return strings.TrimPrefix(t.at.site, "c10.")
+}
+
+func bucket(n int) string {
+	switch {
+	case n <= 2:
+		return fmt.Sprint(n)
+	case n <= 5:
+		return "3-5"
+	case n <= 15:
+		return "6-15"
+	}
+	return "16+"
 }
 
 func (s *sched) ref(t *task) {
@@ -462,6 +531,9 @@ func (s *sched) val(t *task) {
 		out, t.st = "ok", "valok"
 	case "val.stale":
 		out, t.st = "stale", "stale"
+		if !s.quiet && s.arena.ArenaEntryForVerif(s.srv.layers[t.key].digest) != nil {
+			s.r.Count("branch:stale-ref-while-a-newer-file-is-stored")
+		}
 	default:
 		t.st = "failed"
 	}
@@ -572,6 +644,16 @@ func (s *sched) enabled(rnd *hx.Rand, drain bool) []choice {
 	sort.Ints(fkeys)
 	for _, k := range fkeys {
 		k, f := k, s.flights[k]
+		if f.reqOpen {
+			cs = append(cs, choice{8, func() {
+				if drain || rnd.Chance(5, 6) {
+					s.fbody(k, true, srvOK)
+				} else {
+					s.fbody(k, false, []int32{srv500, srvWrongBytes, srvTruncated}[rnd.Intn(3)])
+				}
+			}, "fbody"})
+			continue
+		}
 		if f.at == nil {
 			continue
 		}
@@ -580,7 +662,9 @@ func (s *sched) enabled(rnd *hx.Rand, drain bool) []choice {
 			cs = append(cs, choice{8, func() { s.fload(k) }, "fload"})
 		case "c10.flight.miss":
 			cs = append(cs, choice{8, func() {
-				if drain || rnd.Chance(5, 6) {
+				if rnd.Chance(1, 3) {
+					s.freq(k, []int32{stallBeforeHeaders, stallMidBody}[rnd.Intn(2)])
+				} else if drain || rnd.Chance(5, 6) {
 					s.fnet(k, true, srvOK)
 				} else {
 					s.fnet(k, false, []int32{srv500, srvWrongBytes, srvTruncated}[rnd.Intn(3)])
@@ -599,7 +683,11 @@ func (s *sched) enabled(rnd *hx.Rand, drain bool) []choice {
 			cs = append(cs, choice{10, func() { s.enter(t) }, "enter"})
 		case "waiting":
 			if !drain {
-				cs = append(cs, choice{1, func() { s.cancelTask(t) }, "cancel"})
+				w := 1
+				if f := s.flights[t.key]; f != nil && f.leader == t.id && f.reqOpen {
+					w = 5 // cancelled mid-fetch
+				}
+				cs = append(cs, choice{w, func() { s.cancelTask(t) }, "cancel"})
 			}
 		case "got":
 			cs = append(cs, choice{4, func() { s.ref(t) }, "ref"})
@@ -652,6 +740,7 @@ func (s *sched) finish(cancelled bool) {
 	s.r.Case("quiescent "+s.witness(), true)
 	if !s.quiet {
 		s.r.Count("oracle:quiescent-check")
+		s.r.Count("scenario:tasks=" + bucket(len(s.tasks)))
 	}
 	keys := s.arena.ArenaKeysForVerif()
 	orphans := 0
